@@ -9,7 +9,7 @@ from dataclasses import dataclass, field
 from typing import Dict, List, Optional, Set, Tuple
 
 from ..model import AnchorError, ClassInfo, Program, dotted, last_attr, norm, parent, walk_no_nested
-from ..report import Check
+from ..report import Check, guard
 from .common import calls_in, returns_of
 
 
@@ -467,8 +467,8 @@ def r14_3(prog: Program, chk: Check) -> None:
 
 
 def run(prog: Program, chk: Check) -> None:
-    r14_1(prog, chk)
-    r14_1b(prog, chk)
-    r14_2(prog, chk)
-    r14_2b(prog, chk)
-    r14_3(prog, chk)
+    guard(chk, r14_1, prog, chk)
+    guard(chk, r14_1b, prog, chk)
+    guard(chk, r14_2, prog, chk)
+    guard(chk, r14_2b, prog, chk)
+    guard(chk, r14_3, prog, chk)
